@@ -4,9 +4,16 @@
 From FC Require Import Base.Res Index.IC Region.Region Region.Owned.
 Set Implicit Arguments.
 
-Class Dense (R : Region) (SP : RSpec R) := {
+(** The iso between the inner index type and pairs of offsets is data ([PairIdx]); that the inner
+    region really hands out dense pairs is a law ([Dense]). [consec] only needs the data, so the
+    composition over a collapsing region can be written down (and its failure exhibited). *)
+Class PairIdx (R : Region) := {
   to_pair : idx R -> nat * nat;
   of_pair : nat * nat -> idx R;
+}.
+Arguments to_pair {R _}. Arguments of_pair {R _}.
+
+Class Dense (R : Region) (SP : RSpec R) (PI : PairIdx R) := {
   extent : st R -> nat;
   of_to : forall i, of_pair (to_pair i) = i;
   extent_dflt : extent (dflt R) = 0;
@@ -15,12 +22,12 @@ Class Dense (R : Region) (SP : RSpec R) := {
   extent_sim : forall s t, sim s t -> extent s = extent t;
   dense_push : forall s v s' i, inv s -> push R s v = Ok (s', i) -> to_pair i = (extent s, extent s');
 }.
-Arguments Dense R {SP}.
-Arguments to_pair {R SP _}. Arguments of_pair {R SP _}. Arguments extent {R SP _}.
+Arguments Dense R {SP PI}.
+Arguments extent {R SP PI _}.
 
 Section Consec.
   Variable R : Region.
-  Context {SP : RSpec R} {D : Dense R}.
+  Context {PI : PairIdx R}.
   Variable O : IC nat.
   (** [chk]: debug assertions enabled (the [debug_assert_eq!] in [push]). *)
   Variable chk : bool.
@@ -44,11 +51,13 @@ Section Consec.
     merge := fun l => (merge R (map (fun x => fst (fst x)) l), ic_push O (ic_default O) 0, 0);
   |}.
 End Consec.
-Arguments consec R {SP D} O chk.
+Arguments consec R {PI} O chk.
 
+#[export] Instance owned_pair T : PairIdx (owned T) :=
+  @Build_PairIdx (owned T) (fun i : nat * nat => i) (fun i : nat * nat => i).
 #[export] Instance owned_dense T : Dense (owned T).
 Proof.
-  refine (@Build_Dense (owned T) _ (fun i => i) (fun i => i) (@length T) _ _ _ _ _ _); simpl; auto.
+  refine (@Build_Dense (owned T) _ _ (@length T) _ _ _ _ _ _); simpl; auto.
   - intros s t ->. reflexivity.
   - intros s v s' i _ H. inversion H; subst. rewrite app_length. reflexivity.
 Defined.
@@ -78,7 +87,7 @@ Proof.
 Qed.
 
 (** C12 for the wrapper: the k-th push since creation / merge / clear returns k. *)
-Lemma consec_push_index R `{RegionOK R} `{!Dense R} (O : IC nat) `{ICOk _ O} chk x v x' k :
+Lemma consec_push_index R `{RegionOK R} {PI : PairIdx R} `{!Dense R} (O : IC nat) `{ICOk _ O} chk x v x' k :
   inv x -> push (consec R O chk) x v = Ok (x', k) -> S k = length (ic_abs (snd (fst x))).
 Proof.
   destruct x as [[s o] lst]. intros (Hs & Ho & Hlst & offs & Hoffs & _).
@@ -90,7 +99,7 @@ Proof.
   rewrite app_length. simpl. rewrite Hoffs. simpl. lia.
 Qed.
 
-#[export] Instance consec_ok R `{RegionOK R} `{!Dense R} (O : IC nat) `{ICOk _ O} chk : RegionOK (consec R O chk).
+#[export] Instance consec_ok R `{RegionOK R} {PI : PairIdx R} `{!Dense R} (O : IC nat) `{ICOk _ O} chk : RegionOK (consec R O chk).
 Proof.
   constructor.
   - cbn. split; [apply inv_dflt|]. split; [apply inv_push, inv_default|]. split; [symmetry; apply extent_dflt|].
@@ -101,7 +110,7 @@ Proof.
     intros [[s o] lst] v [[s' o'] lst'] k (Hs & Ho & Hlst & offs & Hoffs & Hlast & Hall).
     cbn [fst snd push consec] in *.
     destruct (push R s v) as [[s1 i]|] eqn:Ep; cbn [bind]; [|discriminate].
-    pose proof (@dense_push R _ _ s v s1 i Hs Ep) as Hd.
+    pose proof (@dense_push R _ _ _ s v s1 i Hs Ep) as Hd.
     destruct (chk && negb (fst (to_pair i) =? lst)); [discriminate|].
     intros Hq; inversion Hq; subst. clear Hq.
     destruct (push_safe s v Hs Ep) as (Hi1 & Hv1 & Hf1 & Hd1).
@@ -142,7 +151,7 @@ Proof.
     intros [[s o] lst] v (Hs & Ho & Hlst & offs & Hoffs & Hlast & Hall) Hdom.
     cbn [fst snd dom consec_spec push consec] in *.
     destruct (push_ok s v Hs Hdom) as (s1 & i & Hp & Hr1). rewrite Hp. cbn [bind].
-    pose proof (@dense_push R _ _ s v s1 i Hs Hp) as Hd. rewrite Hd. cbn [fst snd].
+    pose proof (@dense_push R _ _ _ s v s1 i Hs Hp) as Hd. rewrite Hd. cbn [fst snd].
     rewrite Hlst, Nat.eqb_refl, andb_false_r.
     eexists _, _. split; [reflexivity|]. cbn [read consec].
     assert (Ho' : ic_abs (ic_push O o (extent s1)) = (0 :: offs) ++ [extent s1]).
@@ -207,12 +216,12 @@ Qed.
 
 (** Facts about the valid indices of a consecutive-pairs region that fan-out regions built on top
     of it (columns) need: a push makes exactly one new index valid, and fresh regions have none. *)
-Lemma consec_valid_push R `{RegionOK R} `{!Dense R} (O : IC nat) `{ICOk _ O} chk x v x' k :
+Lemma consec_valid_push R `{RegionOK R} {PI : PairIdx R} `{!Dense R} (O : IC nat) `{ICOk _ O} chk x v x' k :
   inv x -> push (consec R O chk) x v = Ok (x', k) ->
   forall j, valid x' j -> valid x j \/ j = k.
 Proof.
   intros Hx Hp j Hj.
-  pose proof (@consec_push_index R _ _ _ O _ chk x v x' k Hx Hp) as Hk.
+  pose proof (@consec_push_index R _ _ _ _ O _ chk x v x' k Hx Hp) as Hk.
   destruct x as [[s o] lst]. destruct Hx as (Hs & Ho & _).
   cbn [fst snd push consec valid consec_spec] in *.
   destruct (push R s v) as [[s1 i]|] eqn:Ep; cbn [bind] in Hp; [|discriminate].
@@ -221,19 +230,19 @@ Proof.
   rewrite abs_push, app_length in Hj by assumption. simpl in Hj. lia.
 Qed.
 
-Lemma consec_no_valid_dflt R `{RegionOK R} `{!Dense R} (O : IC nat) `{ICOk _ O} chk j :
+Lemma consec_no_valid_dflt R `{RegionOK R} {PI : PairIdx R} `{!Dense R} (O : IC nat) `{ICOk _ O} chk j :
   ~ valid (dflt (consec R O chk)) j.
 Proof. cbn. rewrite abs_push, abs_default by apply inv_default. simpl. lia. Qed.
 
-Lemma consec_no_valid_clear R `{RegionOK R} `{!Dense R} (O : IC nat) `{ICOk _ O} chk x j :
+Lemma consec_no_valid_clear R `{RegionOK R} {PI : PairIdx R} `{!Dense R} (O : IC nat) `{ICOk _ O} chk x j :
   ~ valid (clear (consec R O chk) x) j.
 Proof. destruct x as [[s o] l]. cbn. rewrite abs_push, abs_clear by apply inv_clear. simpl. lia. Qed.
 
-Lemma consec_no_valid_merge R `{RegionOK R} `{!Dense R} (O : IC nat) `{ICOk _ O} chk l j :
+Lemma consec_no_valid_merge R `{RegionOK R} {PI : PairIdx R} `{!Dense R} (O : IC nat) `{ICOk _ O} chk l j :
   ~ valid (merge (consec R O chk) l) j.
 Proof. cbn. rewrite abs_push, abs_default by apply inv_default. simpl. lia. Qed.
 
-#[export] Instance consec_merge_fresh R `{RegionOK R} `{!Dense R} `{!MergeFresh R} (O : IC nat) `{ICOk _ O} chk :
+#[export] Instance consec_merge_fresh R `{RegionOK R} {PI : PairIdx R} `{!Dense R} `{!MergeFresh R} (O : IC nat) `{ICOk _ O} chk :
   MergeFresh (consec R O chk).
 Proof.
   intros l Hl. cbn. split; [|split; reflexivity]. apply merge_fresh.
